@@ -33,6 +33,13 @@ def main():
         meta = {"kind": "benign", "silent": [pid for pid, rc, _ in res if rc == 0], "alarms": alarms}
         mp = os.path.join(d, "meta.json")
         old = json.load(open(mp)) if os.path.exists(mp) else {}
+        if len(ids) < 20 and "silent" in old:
+            # a partial re-run: keep the verdicts of the checks that were not run again
+            keep_s = [p_ for p_ in old.get("silent", []) if p_ not in ids]
+            keep_a = {p_: v_ for p_, v_ in old.get("alarms", {}).items() if p_ not in ids}
+            meta["silent"] = sorted(set(keep_s) | set(meta["silent"]))
+            keep_a.update(meta["alarms"])
+            meta["alarms"] = keep_a
         old.update(meta)
         json.dump(old, open(mp, "w"), indent=1)
         print(os.path.basename(d), "SILENT" if not alarms else "ALARM " + json.dumps(alarms)[:1500])
